@@ -195,14 +195,26 @@ def run_real(md, path, init, ops):
     md._INITIAL_MMAP_SIZE = init
     res = Real()
     d = None
+    inherited = []
     try:
         if os.path.exists(path):
             os.unlink(path)
         try:
             d = md.MmapedDict(path)
             res.obs.append(observe(md, d, path, None))
-            for op in ops:
+            for k, op in enumerate(ops):
                 rv = None
+                # INHERITED HANDLES: a forked child holds a copy of the parent's handle (same file, same shared mapping, the
+                # `_used` it had at the fork) and closes it when it re-binds to its own files, while the parent goes on writing.
+                # Simulated in-process by a second MmapedDict on the same file opened at step k = 1 mod 4 and closed — never
+                # written through — two steps later.  Opening and closing such a handle must not change the file: the
+                # observation after the step is judged against the reference like any other (seeded change C09-16: close()
+                # "persisting" its stale used-size header hides what the parent appended meanwhile).
+                if len(ops) <= 60:
+                    if k % 4 == 1 and os.path.getsize(path) > 0:
+                        inherited.append(md.MmapedDict(path))
+                    elif k % 4 == 3 and inherited:
+                        inherited.pop(0).close()
                 if op[0] == 'w':
                     d.write_value(kstr(op[1]), bf(op[2]), bf(op[3]))
                 elif op[0] == 'r':
@@ -217,11 +229,12 @@ def run_real(md, path, init, ops):
             res.err = (len(res.obs), errname(e), ('%s: %s' % (type(e).__name__, e))[:200])
     finally:
         md._INITIAL_MMAP_SIZE = saved
-        if d is not None:
-            try:
-                d.close()
-            except Exception:  # noqa
-                pass
+        for h in [d] + inherited:
+            if h is not None:
+                try:
+                    h.close()
+                except Exception:  # noqa
+                    pass
     return res
 
 
@@ -488,6 +501,19 @@ def corpus():
     for i, (_, b) in enumerate(WITNESS_BITS):
         ow += [['w', 'same', b, b ^ 0xffffffffffffffff], ['r', 'same']] + ([['o']] if i % 3 == 0 else [])
     cs.append(ow)
+    # numerically equal, bitwise different: a write whose (value, timestamp) COMPARES equal to what is stored (+0.0 / -0.0 in
+    # either slot, starting with the zero pair a fresh entry is created with) must still store its own bits — a writer that
+    # skips "unchanged" pairs by float comparison loses the sign of zero (seeded change C10-15)
+    Z = (0x0000000000000000, 0x8000000000000000)
+    for a in Z:
+        for b in Z:
+            cs.append([['w', 'fresh-%x-%x' % (a >> 63, b >> 63), a, b], ['r', 'fresh-%x-%x' % (a >> 63, b >> 63)], ['o'],
+                       ['r', 'fresh-%x-%x' % (a >> 63, b >> 63)]])
+            for c in Z:
+                for d in Z:
+                    cs.append([['w', 'z', a, b], ['w', 'z', c, d], ['r', 'z'], ['o'], ['w', 'z', a, b], ['r', 'z']])
+    for vv in (0x3ff0000000000000, 0x7ff0000000000000):
+        cs.append([['w', 'z', vv, Z[0]], ['w', 'z', vv, Z[1]], ['r', 'z'], ['w', 'z', vv, Z[0]], ['r', 'z'], ['o'], ['r', 'z']])
     # growth (at size 64: one, two, five doublings by one key; at the real size none)
     for n in (40, 43, 150, 1000, 1001, 1004):
         k = 'g' * n
@@ -728,6 +754,52 @@ def run_malformed(ctx, md, tmp):
 
 
 # ------------------------------------------------------------------------------------------------- entry points
+def recreated_cases(rng, n):
+    """pairs of key lists with the SAME encoded lengths (so the re-created file has the same used-bytes header) but different keys"""
+    out = [(['["inprogress", "inprogress", {"path": "/api/a"}, "help"]', '["inprogress", "inprogress", {"path": "/api/b"}, "help"]'],
+            ['["inprogress", "inprogress", {"path": "/api/y"}, "help"]', '["inprogress", "inprogress", {"path": "/api/z"}, "help"]']),
+           (['a', 'bb'], ['c', 'dd']), (['k1'], ['k2']), (['x', 'y', 'z'], ['z', 'y', 'x'])]
+    for _ in range(n):
+        ks = [gen_key_of_len(rng, rng.randrange(1, 40), 1) for _ in range(rng.randrange(1, 5))]
+        ks2 = [gen_key_of_len(rng, len(k), 1) for k in ks]
+        if len(set(ks)) == len(ks) and len(set(ks2)) == len(ks2):
+            out.append((ks, ks2))
+    return out
+
+
+def run_recreated(ctx, md, tmp):
+    """RE-CREATED FILE: a store file is read by the collector's file reader, removed (mark_process_dead does that for live gauge
+    files) and later created again under the same name by another process (pid reuse).  Whatever was read from the earlier file
+    must not colour what is read from the new one — also when both files have the same size and used-bytes header (seeded
+    change C10-16: a per-filename layout cache revalidated by the header only).  Oracle: reader == what was written to the
+    file that exists NOW."""
+    path = os.path.join(tmp, 'live_1234.db')
+    n = 0
+    for ks1, ks2 in recreated_cases(ctx.rng, 40 if ctx.tier == 'quick' else 600):
+        got = []
+        for gen, ks in enumerate((ks1, ks2, ks1)):
+            if os.path.exists(path):
+                os.unlink(path)
+            d = md.MmapedDict(path)
+            for i, k in enumerate(ks):
+                d.write_value(k, float(gen * 10 + i), float(i))
+            d.close()
+            want = triples_str((k, fb(float(gen * 10 + i)), fb(float(i))) for i, k in enumerate(ks))
+            r = file_reader(md, path)
+            got.append(r)
+            n += 1
+            if r != want:
+                ctx.fail('C10:file-reader-stale-after-recreate',
+                         'file re-created under the same name (generation %d, same used-bytes header): read_all_values_from_file() gives %s, '
+                         'the file holds %s' % (gen, short_triples(r), short_triples(want)),
+                         {'kind': 'recreated', 'keys1': ks1, 'keys2': ks2})
+                break
+        ctx.case(('recreated', len(ks1)), {'kind': 'recreated', 'keys1': ks1, 'keys2': ks2})
+    if os.path.exists(path):
+        os.unlink(path)
+    ctx.extra['recreated_file_reads'] = n
+
+
 def sanity():
     for b in (0x7ff0000000000001, 0xfff7ffffffffffff, 0x7ff8000000000abc, 0x8000000000000000):
         if fb(bf(b)) != b:
@@ -763,6 +835,7 @@ def run(ctx):
         ctx.exhaustive = True
         ctx.extra['exhaustive_space'] = 'all %d histories of length %d over 6 operations at initial size %d' % (6 ** depth, depth, SMALL)
         run_malformed(ctx, md, tmp)
+        run_recreated(ctx, md, tmp)
         done = 0
         while done < n_random and time.time() - ctx.t0 < budget:
             batch = []
@@ -789,6 +862,22 @@ def replay(ctx, case):
     real_size = md._INITIAL_MMAP_SIZE
     tmp = tempfile.mkdtemp(prefix='pv-c10-')
     try:
+        if c.get('kind') == 'recreated':
+            class _C:        # minimal ctx for the oracle
+                rng = None; tier = 'quick'; extra = {}
+                def __init__(self): self.f = []
+                def fail(self, sig, what, case): self.f.append((sig, what))
+                def case(self, k, v): pass
+            cc = _C()
+            saved = recreated_cases
+            try:
+                globals()['recreated_cases'] = lambda rng, n: [(c['keys1'], c['keys2'])]
+                run_recreated(cc, md, tmp)
+            finally:
+                globals()['recreated_cases'] = saved
+            for sig, what in cc.f:
+                print('REPLAY-FAIL', sig, what)
+            return 1 if cc.f else 0
         if c.get('kind') == 'malformed':
             raw = bytes.fromhex(c['hex'])
             p = os.path.join(tmp, 'm.db')
